@@ -103,7 +103,23 @@ fn attrs_of(e: &BytesStart, decoder: quick_xml::encoding::Decoder) -> Result<Vec
 
 /// Reads `bytes` back with all checks off and returns the canonical event list.
 pub fn read_back(bytes: &[u8]) -> Result<Vec<Canon>, String> {
-    let mut r = Reader::from_reader(bytes);
+    let slice = read_back_from(Reader::from_reader(bytes), bytes, |r| r.read_event().map(|e| e.into_owned()))?;
+    // the streaming reader must give the same events, whatever the piece size
+    for piece in [1usize, 2, 5] {
+        let script = crate::env::Script::pieces(piece);
+        let mut buf = Vec::new();
+        let streamed = read_back_from(Reader::from_reader(crate::env::Source::new(bytes, &script)), bytes, |r| {
+            buf.clear();
+            r.read_event_into(&mut buf).map(|e| e.into_owned())
+        })?;
+        if streamed != slice {
+            return Err(format!("read back from a buffered source in pieces of {}: {:?}; from a slice: {:?}", piece, streamed, slice));
+        }
+    }
+    Ok(slice)
+}
+
+fn read_back_from<R>(mut r: Reader<R>, bytes: &[u8], mut next: impl FnMut(&mut Reader<R>) -> quick_xml::Result<Event<'static>>) -> Result<Vec<Canon>, String> {
     let c = r.config_mut();
     c.check_end_names = false;
     c.allow_unmatched_ends = true;
@@ -111,7 +127,7 @@ pub fn read_back(bytes: &[u8]) -> Result<Vec<Canon>, String> {
     let mut out = Vec::new();
     for _ in 0..2 * bytes.len() + 8 {
         let dec = r.decoder();
-        let ev = r.read_event().map_err(|e| format!("reader error {:?} at {} in {:?}", e, r.error_position(), lossy(bytes)))?;
+        let ev = next(&mut r).map_err(|e| format!("reader error {:?} at {} in {:?}", e, r.error_position(), lossy(bytes)))?;
         let c = match ev {
             Event::Eof => return Ok(out),
             Event::Start(e) => Canon::Start(utf8(e.name().as_ref())?, attrs_of(&e, dec)?),
